@@ -61,6 +61,7 @@ type Worker struct {
 	From     int64
 	Seed     int64
 	Scratch  string
+	violKeys map[string]bool
 	Out      *evid.WorkerOut
 	distinct map[uint64]struct{}
 	prog     *os.File
@@ -139,6 +140,16 @@ func (w *Worker) SetAdd(set, v string) {
 }
 
 func (w *Worker) Violate(key, summary string, c interface{}, detail interface{}) {
+	// one finding may show on many cases under ONE key (a known finding whose key does not depend
+	// on the layout, say): it takes one of the retained slots, not all of them
+	if w.violKeys == nil {
+		w.violKeys = map[string]bool{}
+	}
+	if w.violKeys[key] {
+		w.Count("violations_repeating_a_key", 1)
+		return
+	}
+	w.violKeys[key] = true
 	w.Out.NViolation++
 	if len(w.Out.Violations) >= 40 {
 		return
@@ -494,8 +505,8 @@ func coordinator(id, tr string) int {
 	ev := &evid.Evidence{PropertyID: id, Tier: tr, Seed: seed(), Level: c.Level, Coverage: cov, Assumptions: c.Assumptions, WallS: wall,
 		Violations: int64(reported)}
 	evid.Must(evid.WriteEvidence(verifRoot, ev))
-	fmt.Printf("%s %s: evaluations=%d distinct_nontrivial=%d violations=%d (new %d, dropped-beyond-cap %d) exhaustive=%v wall=%.1fs\n",
-		id, tr, total.Counters["evaluations"], total.Counters["distinct_nontrivial"], total.NViolation, reported, dropped, exhaustive, wall)
+	fmt.Printf("%s %s: evaluations=%d distinct_nontrivial=%d violations=%d (reports by workers %d incl. known findings, dropped-beyond-cap %d) exhaustive=%v wall=%.1fs\n",
+		id, tr, total.Counters["evaluations"], total.Counters["distinct_nontrivial"], reported, total.NViolation, dropped, exhaustive, wall)
 	for _, k := range evid.SortedKeys(total.Counters) {
 		fmt.Printf("  %-40s %d\n", k, total.Counters[k])
 	}
